@@ -81,6 +81,19 @@ def judge_reduce(m, rng_text, envs, ienvs):
 # ranges whose bounds lie strictly inside an X.Y series are there on purpose (python_version clauses speak about whole series: C17-1)
 PYRANGES = [">=3.8.1", ">3.8", ">=3.8.5,<3.9", ">=3.8.1,<4.0", ">3.9,<3.11", ">=3.9.1,<3.10", "<=3.8.3", "<3.10.2", ">=3.6", ">=3.7,<4.0", "^3.8", "~3.9", ">=2.7,<3.0 || >=3.6", "<3.10", ">=3.6.1", "~=3.8", ">3.6", "<=3.9", "3.8.*", "!=3.7.*", ">=3.10", "^3.6 || ^2.7", ">=3.6,<3.8"]
 
+def hole_cases(rng):
+    """a clause with a hole (!=, not in) reduced by a union range whose first alternative lies in the hole and whose later alternative
+    overlaps the clause; one-component bounds reduced by the range of the adjacent major version"""
+    mi = rng.choice([7, 8, 9, 10])
+    hole = rng.choice([f'python_version != "3.{mi}"', f'python_version not in "3.{mi}, 3.{mi + 1}"', f'python_version != "3.{mi}" and sys_platform == "linux"',
+                       f'python_full_version != "3.{mi}.0"', f'python_version != "2.7"', f'python_version < "3.{mi}" or python_version > "3.{mi}"'])
+    union = rng.choice([f"~3.{mi} || ^3.{mi + 2}", f"~3.{mi} || ~3.{mi + 2}", "~2.7 || ^3.6", f">=3.{mi},<3.{mi + 1} || >=3.{mi + 3}", f"~3.{mi - 1} || ~3.{mi + 1}",
+                        f"~3.{mi} || ~3.{mi + 1} || ~3.{mi + 3}"])
+    if rng.random() < 0.25:
+        hole = rng.choice(['python_version >= "3"', 'python_version < "4"', 'python_version >= "3" and python_version < "4"', 'python_version >= "3" and os_name == "nt"'])
+        union = rng.choice([">=2.7,<4.0", "<4.0", ">=3", ">=3,<4", "^3.6", ">=2.7"])
+    return hole, union
+
 def run(tier):
     R = common.Run("C17", tier)
     ok, log = common.build_driver()
@@ -119,6 +132,17 @@ def run(tier):
             R.case(dict(marker=s, range=pr), nontrivial=True); R.count("reduce_python_cases")
             d = judge_reduce(m, pr, es, [MI.impl_env(e) for e in es])
             if d: R.fail(dict(marker=s, kind="reduce", range=pr, python_grid=True), d, MI.d35_matcher)
+    for _ in range(80 if tier == "quick" else 1500):
+        s, pr = hole_cases(rng)
+        m = K.parse(s)
+        if m is None or isinstance(m, Exception): continue
+        pys = C11.interpreters(pr + " " + s); es = []
+        for py in pys:
+            e = dict(rng.choice(MI.PLATFORMS)); e.update(python_full_version=py, python_version=".".join(py.split(".")[:2]), implementation_version=py, extra=[])
+            es.append(e)
+        R.case(dict(marker=s, range=pr), nontrivial=True); R.count("reduce_hole_cases")
+        d = judge_reduce(m, pr, es, [MI.impl_env(e) for e in es])
+        if d: R.fail(dict(marker=s, kind="reduce", range=pr, python_grid=True), d, MI.d35_matcher)
     return R.finish(K.TRUSTED, ASSUME, RULE, "make -C coq Properties/C17.vo && coqc Properties/C17.v (Print Assumptions)")
 
 def replay(rep):
